@@ -1,7 +1,10 @@
 // C14: pipe events are ordered; dialers redial; listeners keep accepting.
 //
-// Every socket registers callbacks for ADD_PRE / ADD_POST / REM_POST before any
-// endpoint starts.  The callbacks append (t, socket, pipe, dialer, listener,
+// Two sockets in three register callbacks for ADD_PRE / ADD_POST / REM_POST
+// before any endpoint starts; the others (events and listen mode) only after
+// their endpoints run and pipes exist (pipes that existed before must stay
+// silent for ever), and drop / re-install the callbacks while pipes come and
+// go.  The callbacks append (t, socket, pipe, dialer, listener,
 // event) to a harness-owned log and, seeded, call nng_pipe_close from inside
 // ADD_PRE or ADD_POST.  After every case (all sockets closed) an offline
 // checker judges the log:
@@ -10,18 +13,24 @@
 //   close     a pipe that got ADD_POST has REM_POST before its socket's
 //             nng_socket_close returned
 //   rejected  no received message names a pipe closed inside its ADD_PRE
-//   dialer    per dialer at most one pipe between ADD_POST and REM_POST
+//   dialer    per dialer at most one pipe between ADD_POST and REM_POST, and
+//             the windows ADD_PRE..REM_POST of its pipes never overlap
 // Modes:
-//   events  nng<->nng sockets (1-3 dialers, 1-3 listeners, inproc/ipc/tcp),
-//           2-3 chaos threads racing pipe close / endpoint close / peer loss /
-//           socket close, continuous tagged traffic, schedule perturbation
-//   redial  a raw TCP/unix listener (or an nng inproc listener) counts the
-//           connection attempts of one nng dialer: after every loss or failed
-//           background dial a new attempt within max(RECONNMINT,RECONNMAXT) +
-//           grace; none after nng_dialer_close / nng_socket_close returned
+//   events  nng<->nng sockets (1-3 dialers, 1-3 listeners, inproc/ipc/tcp/ws/
+//           udp, socket:// listeners linked by socket pairs), 2-3 chaos
+//           threads racing pipe close / endpoint close / peer loss / socket
+//           close / callback removal, continuous tagged traffic, schedule
+//           perturbation
+//   redial  a raw TCP/unix listener (or an nng inproc/ws/udp listener, or the
+//           dialer's own failure counters) watches the connection attempts
+//           of one nng dialer: after every loss or failed background dial
+//           (also: name does not resolve) a new attempt within
+//           max(RECONNMINT,RECONNMAXT) + grace; back-off runs; none after
+//           nng_dialer_close / nng_socket_close returned
 //   listen  raw clients abort at every handshake offset, send wrong protocol
-//           ids, RST ...; afterwards a well-behaved client must still connect
-//           and exchange a message
+//           ids, RST ..., the accept itself fails (EMFILE), on tcp / ipc /
+//           socket:// listeners; afterwards a well-behaved client must still
+//           connect and exchange a message
 #include "vfh.h"
 #include <errno.h>
 #include <fcntl.h>
@@ -30,6 +39,8 @@
 #include <poll.h>
 #include <pthread.h>
 #include <stdatomic.h>
+#include <netdb.h>
+#include <sys/resource.h>
 #include <sys/socket.h>
 #include <sys/un.h>
 #include <unistd.h>
@@ -51,6 +62,15 @@ static pthread_mutex_t evmtx = PTHREAD_MUTEX_INITIALIZER;
 
 static const char *evname[] = { "NONE", "ADD_PRE", "ADD_POST", "REM_POST" };
 
+// synthetic log record (pipe 0): the application has just finished installing
+// its three callbacks on this socket (first, late registration or the end of
+// an un-registered window).  REM_POST of pipes whose ADD_POST is logged before
+// this mark may have gone unobserved while no REM_POST callback was installed.
+#define EV_REGMARK 9
+// synthetic log record (pipe 0): the application starts changing its callbacks
+// on this socket; until the next EV_REGMARK events of its pipes may go unseen
+#define EV_UNREGMARK 8
+
 #define RING 64
 #define MAXSOCK 24
 typedef struct {
@@ -66,6 +86,8 @@ typedef struct {
 	atomic_int      rej_budget;
 	atomic_int      force_pre, force_post; // close the next n pipes in PRE/POST
 	uint64_t        seq;
+	bool            late;   // callbacks installed only after endpoints and pipes exist
+	pthread_mutex_t regmtx; // one thread at a time changes this socket's callbacks
 } tsock;
 
 static tsock sockring[RING];
@@ -136,6 +158,69 @@ pipe_cb(nng_pipe p, nng_pipe_ev ev, void *arg)
 			pthread_mutex_unlock(&evmtx);
 		}
 	}
+}
+
+static void
+log_mark(int ring, int ev)
+{
+	evrec r;
+	memset(&r, 0, sizeof(r));
+	r.t    = vf_now_ns();
+	r.sock = ring;
+	r.ev   = (uint8_t) ev;
+	pthread_mutex_lock(&evmtx);
+	if (evn < MAXEV) {
+		evlog[evn++] = r;
+	} else {
+		ev_dropped++;
+	}
+	pthread_mutex_unlock(&evmtx);
+}
+
+// The installed set is at every moment a prefix of (ADD_PRE, ADD_POST,
+// REM_POST): install in this order, remove in the reverse order.  Any other
+// order lets a pipe take an ADD_PRE that nobody observes and legally show
+// ADD_POST first.  (The socket may be closed under us: errors are ignored.)
+static void
+install_cbs_locked(tsock *ts)
+{
+	log_mark(ts->ring, EV_UNREGMARK);
+	for (int ev = NNG_PIPE_EV_ADD_PRE; ev <= NNG_PIPE_EV_REM_POST; ev++) {
+		nng_pipe_notify(ts->s, (nng_pipe_ev) ev, pipe_cb, ts);
+	}
+	log_mark(ts->ring, EV_REGMARK);
+}
+
+static void
+sock_register(tsock *ts)
+{
+	pthread_mutex_lock(&ts->regmtx);
+	install_cbs_locked(ts);
+	pthread_mutex_unlock(&ts->regmtx);
+}
+
+static void
+sock_reregister(tsock *ts)
+{
+	pthread_mutex_lock(&ts->regmtx);
+	for (int ev = NNG_PIPE_EV_ADD_PRE; ev <= NNG_PIPE_EV_REM_POST; ev++) {
+		nng_pipe_notify(ts->s, (nng_pipe_ev) ev, pipe_cb, ts);
+	}
+	pthread_mutex_unlock(&ts->regmtx);
+}
+
+// no callbacks at all for a while, then all three again
+static void
+sock_unregister_window(tsock *ts, int us)
+{
+	pthread_mutex_lock(&ts->regmtx);
+	log_mark(ts->ring, EV_UNREGMARK);
+	for (int ev = NNG_PIPE_EV_REM_POST; ev >= NNG_PIPE_EV_ADD_PRE; ev--) {
+		nng_pipe_notify(ts->s, (nng_pipe_ev) ev, NULL, NULL);
+	}
+	vf_usleep(us);
+	install_cbs_locked(ts);
+	pthread_mutex_unlock(&ts->regmtx);
 }
 
 static int
@@ -377,12 +462,14 @@ case_reset(void)
 }
 
 static tsock *
-sock_open(const char *protoname, uint64_t key, int rej_pre_pm, int rej_post_pm, int budget)
+sock_open_ex(const char *protoname, uint64_t key, int rej_pre_pm, int rej_post_pm, int budget, bool late)
 {
 	tsock *ts = &sockring[ringpos % RING];
 	int    rv;
 	if (ncs >= MAXSOCK) vf_harness_fail("too many sockets");
 	memset(ts, 0, sizeof(*ts));
+	pthread_mutex_init(&ts->regmtx, NULL);
+	ts->late = late;
 	ts->ring  = ringpos % RING;
 	ringpos++;
 	ts->proto = vf_proto_by_name(protoname);
@@ -398,7 +485,7 @@ sock_open(const char *protoname, uint64_t key, int rej_pre_pm, int rej_post_pm, 
 	ts->canrecv = !strcmp(protoname, "bus") || !strcmp(protoname, "pair0") || !strcmp(protoname, "pair1") ||
 	    !strcmp(protoname, "pull") || !strcmp(protoname, "sub");
 	if (!strcmp(protoname, "sub")) nng_sub0_socket_subscribe(ts->s, "", 0);
-	for (int ev = NNG_PIPE_EV_ADD_PRE; ev <= NNG_PIPE_EV_REM_POST; ev++) {
+	for (int ev = NNG_PIPE_EV_ADD_PRE; ev <= NNG_PIPE_EV_REM_POST && !late; ev++) {
 		if ((rv = nng_pipe_notify(ts->s, (nng_pipe_ev) ev, pipe_cb, ts)) != 0) vf_harness_fail("notify: %s", nng_strerror(rv));
 	}
 	nng_socket_set_ms(ts->s, NNG_OPT_SENDTIMEO, 5000);
@@ -406,6 +493,33 @@ sock_open(const char *protoname, uint64_t key, int rej_pre_pm, int rej_post_pm, 
 	atomic_store(&ts->state, 1);
 	cs[ncs++] = ts;
 	return ts;
+}
+
+static tsock *
+sock_open(const char *protoname, uint64_t key, int rej_pre_pm, int rej_post_pm, int budget)
+{
+	return sock_open_ex(protoname, key, rej_pre_pm, rej_post_pm, budget, false);
+}
+
+// Late registration: the socket's endpoints run and (usually) 'want' pipes
+// exist; only now the application installs its callbacks.  The pipes that
+// exist already never had ADD_PRE, so nothing may ever be reported for them.
+static void
+sock_register_late(tsock *ts, int want, int wait_ms)
+{
+	int      n   = 0;
+	uint64_t end = vf_now_ns() + (uint64_t) wait_ms * 1000000ULL;
+	for (;;) {
+		n = vf_pipe_count(ts->s);
+		if (n >= want || vf_now_ns() > end) break;
+		vf_usleep(500);
+	}
+	sock_register(ts);
+	vf_stat("late_registrations", 1);
+	if (n > 0) {
+		vf_stat("late_registrations_with_pipes", 1);
+		vf_stat("pipes_alive_at_registration", n);
+	}
 }
 
 static void
@@ -548,8 +662,12 @@ check_log(const char *mode, const char *fam)
 {
 	int    n = evn; // no more writers: all sockets closed and library quiescent
 	char   key[200];
-	struct { uint32_t d; int live; uint32_t pipe; } dl[MAXEP];
+	struct { uint32_t d; int sock; int live; uint32_t pipe; int reset_idx; } dl[MAXEP];
 	int    ndl = 0;
+	int    regmark[RING]; // last "callbacks installed" mark per socket, -1 none
+	bool   inwin[RING];   // between "callbacks being changed" and "installed"
+	for (int i = 0; i < RING; i++) regmark[i] = -1;
+	memset(inwin, 0, sizeof(inwin));
 
 	vf_stat("events", n);
 	if (ev_dropped > 0) {
@@ -565,6 +683,18 @@ check_log(const char *mode, const char *fam)
 		evrec *r = &evlog[i];
 		if (!ring_is_current(r->sock)) {
 			vf_stat("stale_events", 1);
+			continue;
+		}
+		if ((r->ev == EV_REGMARK || r->ev == EV_UNREGMARK) && r->pipe == 0) {
+			// REM_POST of this socket's earlier pipes may be / have been missed
+			inwin[r->sock] = r->ev == EV_UNREGMARK;
+			if (r->ev == EV_REGMARK) regmark[r->sock] = i;
+			for (int k = 0; k < ndl; k++) {
+				if (dl[k].sock == r->sock) {
+					dl[k].live      = 0;
+					dl[k].reset_idx = i;
+				}
+			}
 			continue;
 		}
 		if (r->ev < 1 || r->ev > 3 || r->pipe == 0) {
@@ -612,24 +742,38 @@ check_log(const char *mode, const char *fam)
 			for (k = 0; k < ndl && dl[k].d != p->dialer; k++) {
 			}
 			if (k == ndl && ndl < MAXEP) {
-				dl[ndl].d    = p->dialer;
-				dl[ndl].live = 0;
-				dl[ndl].pipe = 0;
+				dl[ndl].d         = p->dialer;
+				dl[ndl].sock      = p->sock;
+				dl[ndl].live      = 0;
+				dl[ndl].pipe      = 0;
+				dl[ndl].reset_idx = -1;
 				ndl++;
 			}
 			if (k < ndl) {
-				if (r->ev == NNG_PIPE_EV_ADD_POST && p->cnt[2] == 1) {
+				if (r->ev == NNG_PIPE_EV_ADD_POST && p->cnt[2] == 1 && inwin[p->sock]) {
+					// not countable: the REM_POST of the dialer's previous
+					// pipe may just have gone unseen
+					dl[k].pipe = r->pipe;
+				} else if (r->ev == NNG_PIPE_EV_ADD_POST && p->cnt[2] == 1) {
 					if (++dl[k].live > 1) {
 						snprintf(key, sizeof(key), "C14/dialer-two-pipes/%s", tn);
 						vf_violation(key, "%s %s: dialer %u (%s) got ADD_POST for pipe %u while its pipe %u had ADD_POST and no REM_POST yet", mode, fam, p->dialer, tn, r->pipe, dl[k].pipe);
 					}
 					dl[k].pipe = r->pipe;
-				} else if (r->ev == NNG_PIPE_EV_REM_POST && p->cnt[3] == 1 && p->cnt[2] > 0 && p->idx[2] < i) {
+				} else if (r->ev == NNG_PIPE_EV_REM_POST && p->cnt[3] == 1 && p->cnt[2] > 0 && p->idx[2] < i &&
+				    p->idx[2] > dl[k].reset_idx) {
 					dl[k].live--;
 				}
 			}
 		}
 	}
+
+	// per dialer the windows [ADD_PRE, REM_POST] of its pipes (d_pipe is set
+	// before ADD_PRE fires and the redial timer only starts when the pipe is
+	// removed, after its REM_POST): collected here, judged below
+	struct pwin { uint32_t d, pipe; int from, to; } *win = calloc((size_t) n + 1, sizeof(*win));
+	int nwin = 0;
+	if (win == NULL) vf_harness_fail("calloc");
 
 	for (size_t h = 0; h < cap; h++) {
 		pinfo *p = &tab[h];
@@ -645,9 +789,20 @@ check_log(const char *mode, const char *fam)
 		vf_stat("pipes", 1);
 		if (!strcmp(tn, "udp")) vf_stat("pipes_udp", 1);
 		if (!strcmp(tn, "ws")) vf_stat("pipes_ws", 1);
+		if (!strcmp(tn, "sockfd")) vf_stat("pipes_sockfd", 1);
 		if (!strcmp(seq, "PRE,POST,REM")) vf_stat("pipes_full", 1);
 		if (!strcmp(seq, "PRE,REM")) vf_stat("pipes_pre_rem", 1);
-		if (!strcmp(seq, "PRE")) vf_stat("pipes_pre_only", 1);
+		if (!strcmp(seq, "PRE")) {
+			vf_stat("pipes_pre_only", 1);
+			vf_class("note/pipe-with-ADD_PRE-only/%s/%s%s", epk, tn, regmark[p->sock] > p->idx[1] ? "/callbacks-removed-meanwhile" : "");
+		}
+		if (p->dialer != 0 && !p->bad && p->cnt[1] == 1 && p->cnt[3] == 1 && p->idx[1] < p->idx[3]) {
+			win[nwin].d    = p->dialer;
+			win[nwin].pipe = p->pipe;
+			win[nwin].from = p->idx[1];
+			win[nwin].to   = p->idx[3];
+			nwin++;
+		}
 		if (p->closed == 1) vf_stat("rejected_in_pre", 1);
 		if (p->closed == 2) vf_stat("closed_in_post", 1);
 		vf_class("%s/%s/seq=%s/%s/%s/%s", mode, fam, seq, epk, tn,
@@ -655,7 +810,11 @@ check_log(const char *mode, const char *fam)
 
 		if (p->cnt[2] > 0) {
 			// reached ADD_POST: REM_POST no later than the return of close
-			if (p->cnt[3] == 0) {
+			if (p->cnt[3] == 0 && regmark[p->sock] > p->idx[2]) {
+				// the application had no REM_POST callback for a while
+				// after this ADD_POST: nothing is owed for it
+				vf_stat("rem_post_unobservable_callbacks_removed", 1);
+			} else if (p->cnt[3] == 0) {
 				snprintf(key, sizeof(key), "C14/close/REM_POST-missing/%s", epk);
 				vf_violation(key, "%s %s: pipe %u (%s, %s) got ADD_POST (log %d) but no REM_POST although its socket was closed (close returned at log %d)", mode, fam, p->pipe, epk, tn, p->idx[2], ts->close_mark);
 			} else if (ts->close_mark >= 0 && p->idx[3] >= ts->close_mark) {
@@ -667,17 +826,73 @@ check_log(const char *mode, const char *fam)
 		}
 		if (p->cnt[1] > 0 && ts->close_mark >= 0 && p->idx[1] >= ts->close_mark) {
 			vf_stat("add_pre_after_close_return", 1);
+			vf_class("note/ADD_PRE-after-close-return/%s/%s", epk, tn);
 		}
 		if (p->closed == 1) {
 			if (carried_has(p->pipe)) {
 				snprintf(key, sizeof(key), "C14/rejected-pipe-carried-message/%s/%s", fam, tn);
 				vf_violation(key, "%s %s: pipe %u (%s, %s) was closed inside its ADD_PRE callback, yet a received message names it as its pipe", mode, fam, p->pipe, epk, tn);
 			}
-			if (p->cnt[2] > 0) vf_stat("rejected_pipe_got_add_post", 1);
+			if (p->cnt[2] > 0) {
+				vf_stat("rejected_pipe_got_add_post", 1);
+				vf_class("note/rejected-pipe-got-ADD_POST/%s/%s", epk, tn);
+			}
 		}
 	}
+	// at most one pipe per dialer, ADD_PRE..REM_POST windows: sort by
+	// (dialer, from) and compare neighbours
+	for (int i = 1; i < nwin; i++) {
+		struct pwin w = win[i];
+		int         j = i - 1;
+		while (j >= 0 && (win[j].d > w.d || (win[j].d == w.d && win[j].from > w.from))) {
+			win[j + 1] = win[j];
+			j--;
+		}
+		win[j + 1] = w;
+	}
+	for (int i = 0, open = -1; i < nwin; i++) {
+		// 'open': the earlier window of the same dialer that ends last
+		vf_stat("dialer_pipe_windows", 1);
+		if (i == 0 || win[i].d != win[i - 1].d) {
+			open = i;
+			continue;
+		}
+		vf_stat("dialer_pipe_window_pairs", 1);
+		if (win[i].from < win[open].to) {
+			const char *tn = ep_tran_name('d', win[i].d);
+			snprintf(key, sizeof(key), "C14/dialer-two-pipes/pre-window/%s", tn);
+			vf_violation(key, "%s %s: dialer %u (%s) got ADD_PRE for pipe %u (log %d) while its pipe %u had ADD_PRE (log %d) and no REM_POST yet (log %d)",
+			    mode, fam, win[i].d, tn, win[i].pipe, win[i].from, win[open].pipe, win[open].from, win[open].to);
+		}
+		if (win[i].to > win[open].to) open = i;
+	}
+	free(win);
 	vf_stat("carried_pipes", ncarried);
 	free(tab);
+}
+
+// ------------------------------------------------------------------ endpoint statistics
+// sum of an endpoint's failure counters (a failed accept / a failed dial
+// increments exactly one of them), -1 when the endpoint is gone
+static long
+ep_failures(bool dialer, nng_dialer d, nng_listener l)
+{
+	static const char *names[] = { "refused", "disconnect", "other", "timeout", "proto", "auth", "oom", NULL };
+	nng_stat          *st = NULL;
+	const nng_stat    *es;
+	long               sum = -1;
+	if (nng_stats_get(&st) != 0) return -1;
+	es = dialer ? nng_stat_find_dialer(st, d) : nng_stat_find_listener(st, l);
+	if (es != NULL) {
+		sum = 0;
+		for (const nng_stat *c = nng_stat_child(es); c != NULL; c = nng_stat_next(c)) {
+			for (int i = 0; names[i] != NULL; i++) {
+				if (!strcmp(nng_stat_name(c), names[i])) sum += (long) nng_stat_value(c);
+			}
+		}
+	}
+	nng_stats_free(st);
+	return sum;
 }
 
 // ------------------------------------------------------------------ load witness
@@ -860,6 +1075,44 @@ pick_ep(vf_rng *r, char kind)
 	return e;
 }
 
+// socket:// in events mode: a socket pair whose ends are handed to the
+// socket:// listeners of two different sockets of the case
+static void
+sfd_link(vf_rng *r)
+{
+	tep *a = NULL, *b = NULL;
+	int  fds[2];
+	pthread_mutex_lock(&epmtx);
+	if (nep > 0) {
+		int start = (int) vf_below(r, (uint32_t) nep);
+		for (int k = 0; k < nep; k++) {
+			tep *c = &eps[(start + k) % nep];
+			if (c->kind != 'l' || c->tran != VF_T_SOCKFD || atomic_load(&c->open) != 1) continue;
+			if (a == NULL) {
+				a = c;
+			} else if (c->sock != a->sock) {
+				b = c;
+				break;
+			}
+		}
+	}
+	pthread_mutex_unlock(&epmtx);
+	if (a == NULL || b == NULL) return;
+	if (socketpair(AF_UNIX, SOCK_STREAM | SOCK_CLOEXEC, 0, fds) != 0) return;
+	if (nng_listener_set_int(a->l, NNG_OPT_SOCKET_FD, fds[0]) != 0) {
+		close(fds[0]);
+		close(fds[1]);
+		vf_stat("sockfd_handover_refused", 1);
+		return;
+	}
+	if (nng_listener_set_int(b->l, NNG_OPT_SOCKET_FD, fds[1]) != 0) {
+		close(fds[1]); // the first listener sees its peer hang up
+		vf_stat("sockfd_handover_refused", 1);
+		return;
+	}
+	vf_stat("sockfd_links", 1);
+}
+
 static void *
 chaos_thread(void *arg)
 {
@@ -916,11 +1169,24 @@ chaos_thread(void *arg)
 			// per-pipe event history must not be disturbed by it
 			tsock *ts = cs[vf_below(r, (uint32_t) (a->np + 1))];
 			if (atomic_load(&ts->state) == 1) {
-				for (int ev = NNG_PIPE_EV_ADD_PRE; ev <= NNG_PIPE_EV_REM_POST; ev++) {
-					nng_pipe_notify(ts->s, (nng_pipe_ev) ev, pipe_cb, ts);
-				}
+				sock_reregister(ts);
 				vf_stat("op_callbacks_reregistered", 1);
 			}
+		} else if (w < 93) {
+			// a socket that registered late also drops all its callbacks
+			// for a moment while pipes come and go: pipes added meanwhile
+			// must stay silent for ever, the others carry on
+			int start = (int) vf_below(r, (uint32_t) (a->np + 1));
+			for (int k = 0; k <= a->np; k++) {
+				tsock *ts = cs[(start + k) % (a->np + 1)];
+				if (ts->late && atomic_load(&ts->state) == 1) {
+					sock_unregister_window(ts, (int) vf_range(r, 1000, 3000));
+					vf_stat("op_callbacks_unregistered", 1);
+					break;
+				}
+			}
+		} else if (w < 96) {
+			sfd_link(r);
 		} else {
 			vf_usleep((int) vf_below(r, 3000));
 		}
@@ -1000,13 +1266,19 @@ events_case(long idx)
 	vf_case_begin(idx, "events fam=%s peers=%d hub_listeners=%d hub_dialers=%d threads=%d perturb=%s key=%llx",
 	    fams[fam].name, np, nl, nd, nthr, pt, (unsigned long long) key);
 
-	// sockets first, callbacks registered inside sock_open before any endpoint
+	// sockets first; two in three register their callbacks inside sock_open
+	// before any endpoint exists, the others once pipes are up (below)
 	int rej_pre  = vf_chance(&r, 2, 3) ? (int) vf_range(&r, 100, 500) : 0;
 	int rej_post = vf_chance(&r, 1, 2) ? (int) vf_range(&r, 100, 400) : 0;
-	sock_open(fams[fam].hub, key ^ 1, rej_pre, rej_post, (int) vf_range(&r, 2, 12));
+	int  hbud  = (int) vf_range(&r, 2, 12);
+	bool hlate = vf_chance(&r, 1, 3);
+	sock_open_ex(fams[fam].hub, key ^ 1, rej_pre, rej_post, hbud, hlate);
 	for (int j = 0; j < np; j++) {
-		sock_open(fams[fam].peer, key ^ (uint64_t) (j + 2), vf_chance(&r, 1, 2) ? rej_pre : 0,
-		    vf_chance(&r, 1, 3) ? rej_post : 0, (int) vf_range(&r, 1, 8));
+		int jpre  = vf_chance(&r, 1, 2) ? rej_pre : 0;
+		int jpost = vf_chance(&r, 1, 3) ? rej_post : 0;
+		int  jbud  = (int) vf_range(&r, 1, 8);
+		bool jlate = vf_chance(&r, 1, 3);
+		sock_open_ex(fams[fam].peer, key ^ (uint64_t) (j + 2), jpre, jpost, jbud, jlate);
 	}
 	// listeners
 	tep *pl[3]  = { 0 };
@@ -1037,12 +1309,27 @@ events_case(long idx)
 		}
 	}
 
+	// one case in three: socket:// listeners on the hub and on 1..np peers,
+	// linked by socket pairs now and by a chaos op later
+	if (vf_chance(&r, 1, 3)) {
+		int npl = (int) vf_range(&r, 1, (uint32_t) np);
+		if (add_listener(cs[0], VF_T_SOCKFD) == NULL) vf_harness_fail("socket:// listener");
+		for (int j = 0; j < npl; j++) {
+			if (add_listener(cs[1 + j], VF_T_SOCKFD) == NULL) vf_harness_fail("socket:// listener");
+		}
+		int nlinks = (int) vf_range(&r, 1, 3);
+		for (int k = 0; k < nlinks; k++) sfd_link(&r);
+	}
+
 	pthread_t  tt, ct[3], cl[2];
 	chaos_arg  ca[3];
 	closer_arg cla[2];
 	atomic_store(&stop_traffic, 0);
 	if (pthread_create(&tt, NULL, traffic_thread, NULL) != 0) vf_harness_fail("pthread_create");
 	vf_msleep((int) vf_range(&r, 1, 8));
+	for (int i = 0; i < ncs; i++) {
+		if (cs[i]->late) sock_register_late(cs[i], (int) vf_range(&r, 1, 3), 40);
+	}
 	for (int t = 0; t < nthr; t++) {
 		vf_rng_seed(&ca[t].r, key, (uint64_t) (100 + t));
 		ca[t].nops = (int) vf_range(&r, 8, 24);
@@ -1251,6 +1538,33 @@ raw_connect_url(const char *url, int timeout_ms)
 	return vf_unix_connect(url + 6, timeout_ms);
 }
 
+// socket:// has no address: the application makes a socket pair and hands one
+// end to the listener, which "accepts" it from a queue of descriptors.  The
+// listener owns that end from then on; the other one is the raw client.
+static int
+sfd_connect(tep *le)
+{
+	int fds[2];
+	if (socketpair(AF_UNIX, SOCK_STREAM | SOCK_CLOEXEC, 0, fds) != 0) return -1;
+	if (nng_listener_set_int(le->l, NNG_OPT_SOCKET_FD, fds[0]) != 0) {
+		// closed, or 16 descriptors wait already
+		close(fds[0]);
+		close(fds[1]);
+		vf_stat("sockfd_handover_refused", 1);
+		return -1;
+	}
+	vf_stat("sockfd_handovers", 1);
+	return fds[1];
+}
+
+// a raw client connection to a tcp / ipc / socket:// listener
+static int
+client_connect(tep *le, int timeout_ms)
+{
+	if (le->tran == VF_T_SOCKFD) return sfd_connect(le);
+	return raw_connect_url(le->url, timeout_ms);
+}
+
 // A raw peer whose connection the application is about to reject inside
 // ADD_PRE: it has done its hello; now it sends one tagged frame and reads
 // until the socket closes the connection, while the application keeps
@@ -1440,6 +1754,7 @@ raw_reachable(rawl *l)
 	return true;
 }
 
+static bool localhost_is_loopback4; // "localhost" resolves, quickly, to 127.0.0.1 first
 static bool warmup_case;        // first case of this process (thread pools, page faults, ...)
 static long last_wait_delay_ms; // of the last successful wait_attempt
 static int  last_wait_hb_ms;    // longest stall of the harness timer thread meanwhile
@@ -1459,6 +1774,7 @@ wait_attempt(rawl *l, uint64_t t_drop, const redial_ctx *c, const char *cause)
 		last_wait_delay_ms = (long) ((vf_now_ns() - t_drop) / 1000000ULL);
 		last_wait_hb_ms    = hb_maxgap_ms();
 		vf_stat("redials_observed", 1);
+		vf_stat(l->tran == VF_T_TCP ? "redials_tcp" : "redials_ipc", 1);
 		return fd;
 	}
 	// bounded-progress: look once more, much longer, before reporting
@@ -1502,6 +1818,25 @@ backoff_limit(int rmin, int rmax, int i)
 		}
 	}
 	return cur;
+}
+
+// "a randomised delay": the delay is drawn from [0, limit).  Of the delays of
+// one back-off run whose limit is at least 200 ms (a stall of the harness
+// that would make a short delay look like a full one is then excluded by the
+// 50 ms timer-thread witness) at least one must be clearly (5 %) below its
+// limit; with six or more such delays a correct dialer fails this with
+// probability < 2e-8.
+static void
+randomised_check(const redial_ctx *c, int nbig, int nbelow)
+{
+	if (nbig < 6) return;
+	vf_stat("backoff_runs_randomisation_judged", 1);
+	if (nbelow == 0) {
+		char vk[128];
+		snprintf(vk, sizeof(vk), "C14/redial-not-randomised/%s/reconn=%d-%d", c->tran, c->rmin, c->rmax);
+		vf_violation(vk, "%s %s reconnect min/max %d/%d ms: all %d redial delays of one back-off run whose upper limit was 200 ms or more were at least 95 %% of that limit: the delay is not randomised",
+		    c->tran, c->proto, c->rmin, c->rmax, nbig);
+	}
 }
 
 typedef struct {
@@ -1557,6 +1892,12 @@ redial_raw_case(long idx, vf_rng *r, uint64_t key, int tran)
 	late_reset();
 	raw_open(&l, tran, !late);
 	raw_url(&l, url, sizeof(url));
+	if (tran == VF_T_TCP && localhost_is_loopback4 && vf_chance(r, 1, 2)) {
+		// through the dialer's name resolution step instead of a literal
+		snprintf(url, sizeof(url), "tcp://localhost:%u", l.port);
+		vf_stat("redial_cases_by_name", 1);
+		vf_class("redial/tcp/dial-by-name/%s", bk ? "backoff-run" : "ordinary");
+	}
 	tsock          *ts = sock_open(pname, key, 0, 0, 0);
 	const vf_proto *pr = ts->proto;
 	tep            *de = add_dialer_ex(ts, tran, url, c.rmin, c.rmax, viasock, !syncstart);
@@ -1568,6 +1909,7 @@ redial_raw_case(long idx, vf_rng *r, uint64_t key, int tran)
 	int         bk_exceed = 0;
 	long        bk_worst = 0;
 	int         bk_worst_i = 0;
+	int         bk_big = 0, bk_big_below = 0; // delays with a limit >= 200 ms / of those clearly below their limit
 	if (syncstart) {
 		// nng_dialer_start(d, 0) blocks until the first pipe is up: play the
 		// well-behaved peer meanwhile, then lose that connection
@@ -1613,7 +1955,14 @@ redial_raw_case(long idx, vf_rng *r, uint64_t key, int tran)
 			// the property's bound: the larger configured reconnect time
 			long u = c.bound;
 			if (last_wait_hb_ms < 50) {
+				// (the smaller of this step's and the previous step's limit:
+				// an off-by-one in the step count must not matter)
+				long lim = since_reset >= 2 ? backoff_limit(c.rmin, c.rmax, since_reset - 2) : 0;
 				vf_stat("backoff_delays_judged", 1);
+				if (lim >= 200) {
+					bk_big++;
+					if (last_wait_delay_ms * 100 < lim * 95) bk_big_below++;
+				}
 				if (last_wait_delay_ms > u + 200) {
 					bk_exceed++;
 					if (last_wait_delay_ms - u > bk_worst) {
@@ -1758,6 +2107,7 @@ redial_raw_case(long idx, vf_rng *r, uint64_t key, int tran)
 			vf_violation(vk, "%s %s reconnect min/max %d/%d ms: %d redial delays of one run of consecutive failed dials exceeded the larger configured reconnect time by more than 200 ms (worst: %ld ms over it, after %d failures since the last established pipe) while the harness timer thread never stalled 50 ms",
 			    c.tran, pname, c.rmin, c.rmax, bk_exceed, bk_worst, bk_worst_i);
 		}
+		randomised_check(&c, bk_big, bk_big_below);
 	}
 	// closing phase: no attempt after nng_dialer_close / nng_socket_close returned
 	if (!stuck) {
@@ -1822,6 +2172,7 @@ wait_pre(int from, tsock *ts, uint32_t did, uint64_t t_drop, const redial_ctx *c
 	if (i >= 0) {
 		delay_stat(out->t > t_drop ? out->t - t_drop : 0);
 		vf_stat("redials_observed", 1);
+		vf_stat(!strcmp(c->tran, "udp") ? "redials_udp" : !strcmp(c->tran, "ws") ? "redials_ws" : "redials_inproc", 1);
 		return i;
 	}
 	i = log_wait(from, ts->ring, NNG_PIPE_EV_ADD_PRE, did, 4000, out);
@@ -1942,10 +2293,16 @@ redial_nng_case(long idx, vf_rng *r, uint64_t key, int tran)
 		// the loss as the dialer's socket sees it
 		int ri = log_wait_pipe(i, dp, NNG_PIPE_EV_REM_POST, 1500, &er);
 		if (ri < 0) {
+			// (udp: the dialer learns of a closed listener only by keep-alive)
+			char sk[64];
+			snprintf(sk, sizeof(sk), "nng_loss_not_seen_%s", c.tran);
 			vf_stat("nng_loss_not_seen", 1);
+			vf_stat(sk, 1);
+			vf_class("note/redial-round-not-judged/%s/%s", c.tran, cause);
 			break;
 		}
 		vf_stat("drops_injected", 1);
+		vf_stat("nng_rounds_judged", 1);
 		if (le == NULL) {
 			from = ri + 1;
 			continue; // next round listens again
@@ -1993,6 +2350,287 @@ redial_nng_case(long idx, vf_rng *r, uint64_t key, int tran)
 	close_all_and_check("redial", pname);
 }
 
+// Back-off run for dialers that a raw listener cannot watch (inproc, ws):
+// nothing listens at the address, every background dial is refused at once,
+// and the time between two consecutive failures (read from the dialer's own
+// failure counters every millisecond) is the redial delay plus one refused
+// connect.  Judged like the raw back-off runs: against the larger configured
+// reconnect time + 200 ms, only while the harness timer thread never stalled
+// 50 ms, reported when two delays of one run exceed it.  Then a listener
+// appears and the dialer must connect.
+static void
+redial_backoff_stats_case(long idx, vf_rng *r, uint64_t key, int tran)
+{
+	static const int   bkpairs[5][2] = { { 49, 400 }, { 98, 400 }, { 390, 400 }, { 50, 400 }, { 100, 0 } };
+	static const char *ipr[]         = { "pair0", "pair1", "bus", "pull", "sub", "req" };
+	const char        *pname = ipr[vf_below(r, 6)];
+	int                b     = (int) vf_below(r, 5);
+	redial_ctx         c = { tn(tran), bkpairs[b][0], bkpairs[b][1], reconn_bound(bkpairs[b][0], bkpairs[b][1]), pname };
+	char               url[128];
+	int                nfail = 10;
+	vf_pt_off();
+	vf_case_begin(idx, "redial tran=%s(statistics) proto=%s reconn=%d/%d backoff-run key=%llx", c.tran, pname, c.rmin, c.rmax, (unsigned long long) key);
+	late_reset();
+	tsock *D = sock_open(pname, key, 0, 0, 0);
+	tsock *L = sock_open(D->proto->peer_name, key ^ 5, 0, 0, 0);
+	rawl rsv;
+	memset(&rsv, 0, sizeof(rsv));
+	rsv.fd = -1;
+	if (tran == VF_T_INPROC) {
+		mk_url(tran, url, sizeof(url));
+	} else {
+		// learn a port, then keep it reserved (bound, not listening: every
+		// connect is refused) so that nobody else's listener turns up there
+		tep *t0 = add_listener(L, tran);
+		if (t0 == NULL) vf_harness_fail("first listen");
+		snprintf(url, sizeof(url), "%s", t0->url);
+		ep_close(t0);
+		const char *colon = strrchr(url, ':');
+		rsv.tran = VF_T_TCP;
+		rsv.port = (uint16_t) atoi(colon + 1);
+		if ((rsv.fd = raw_bind_fd(&rsv)) < 0) {
+			vf_stat("backoff_port_not_reserved", 1);
+			close_all_and_check("redial", pname);
+			return;
+		}
+	}
+	tep *de = add_dialer(D, tran, url, c.rmin, c.rmax, vf_chance(r, 1, 3));
+	if (de == NULL || atomic_load(&de->open) != 1) vf_harness_fail("dialer start");
+	long     seen = ep_failures(true, de->d, de->l);
+	uint64_t t_last = vf_now_ns();
+	int      got = 0, exceed = 0, judged = 0, big = 0, big_below = 0;
+	long     worst = 0;
+	bool     stuck = false;
+	hb_reset();
+	while (got < nfail && seen >= 0) {
+		long cur = ep_failures(true, de->d, de->l);
+		uint64_t now = vf_now_ns();
+		if (cur > seen) {
+			long ms = (long) ((now - t_last) / 1000000ULL);
+			// (the first failure follows the start, not a delay; two
+			// failures in one sample cannot be told apart)
+			if (got > 0 && cur == seen + 1 && !warmup_case) {
+				if (hb_maxgap_ms() < 50) {
+					long lim = got >= 2 ? backoff_limit(c.rmin, c.rmax, got - 2) : 0;
+					judged++;
+					vf_stat("backoff_delays_judged", 1);
+					vf_stat("backoff_delays_judged_by_statistics", 1);
+					if (lim >= 200) {
+						big++;
+						if (ms * 100 < lim * 95) big_below++;
+					}
+					if (ms > c.bound + 200) {
+						exceed++;
+						if (ms - c.bound > worst) worst = ms - c.bound;
+					}
+				} else {
+					vf_stat("backoff_delays_skipped_load", 1);
+				}
+			}
+			got += (int) (cur - seen);
+			seen   = cur;
+			t_last = now;
+			hb_reset();
+			continue;
+		}
+		if (cur < 0) break;
+		if (now > t_last + (uint64_t) (c.bound + 5000) * 1000000ULL) {
+			stuck = true;
+			break;
+		}
+		vf_usleep(1000);
+	}
+	if (rsv.fd >= 0) close(rsv.fd);
+	vf_stat("backoff_runs", 1);
+	vf_stat(tran == VF_T_WS ? "backoff_runs_ws" : "backoff_runs_inproc", 1);
+	vf_class("redial-backoff/%s/reconn=%d-%d", c.tran, c.rmin, c.rmax);
+	if (stuck) {
+		char vk[128];
+		snprintf(vk, sizeof(vk), "C14/redial-none/%s/refused-dial", c.tran);
+		vf_violation(vk, "%s %s reconnect min/max %d/%d ms: after %d refused background dials the dialer's failure counters did not move for more than %d ms (nothing listens at %s); the dialer is open",
+		    c.tran, pname, c.rmin, c.rmax, got, c.bound + 5000, url);
+	} else if (exceed >= 2) {
+		char vk[128];
+		snprintf(vk, sizeof(vk), "C14/redial-backoff/%s/reconn=%d-%d", c.tran, c.rmin, c.rmax);
+		vf_violation(vk, "%s %s reconnect min/max %d/%d ms: %d of %d redial delays of one run of consecutive refused dials exceeded the larger configured reconnect time by more than 200 ms (worst: %ld ms over it) while the harness timer thread never stalled 50 ms",
+		    c.tran, pname, c.rmin, c.rmax, exceed, judged, worst);
+	}
+	if (!stuck) randomised_check(&c, big, big_below);
+	if (!stuck) {
+		// now somebody listens: the dialer must get its pipe
+		tep *le = relisten(L, tran, url);
+		if (le != NULL) {
+			evrec pre;
+			if (wait_pre(0, D, de->id, vf_now_ns(), &c, "nothing-listens", &pre) >= 0) {
+				log_wait_pipe(0, pre.pipe, NNG_PIPE_EV_ADD_POST, 2000, NULL);
+			}
+		} else {
+			vf_stat("relisten_failed", 1);
+		}
+	}
+	late_report(&c);
+	close_all_and_check("redial", pname);
+}
+
+// A name that does not resolve: every background dial fails in the dialer's
+// resolution step (no connection is ever attempted, so there is nothing for a
+// raw listener to see); the dialer must keep trying.  Observed through the
+// dialer's own failure counters: three more failed dials within a deadline
+// that is >= 10x what three of them nominally take (3 x (resolution + larger
+// reconnect time) <= 3 x 70 ms).  No verdict when this machine's resolver is
+// slow to say no (measured before and after with the same name).
+#define NOHOST "no-such-host.invalid"
+
+static int
+resolve_ms(const char *host, bool *ok, bool *loop4)
+{
+	struct addrinfo hints, *res = NULL;
+	memset(&hints, 0, sizeof(hints));
+	hints.ai_family   = AF_UNSPEC;
+	hints.ai_socktype = SOCK_STREAM;
+	hints.ai_flags    = AI_ADDRCONFIG | AI_NUMERICSERV;
+	uint64_t t0 = vf_now_ns();
+	int      rv = getaddrinfo(host, "80", &hints, &res);
+	int      ms = (int) ((vf_now_ns() - t0) / 1000000ULL);
+	*ok         = rv == 0;
+	if (loop4) {
+		// the library takes the first AF_INET / AF_INET6 entry
+		*loop4 = false;
+		for (struct addrinfo *p = res; rv == 0 && p != NULL; p = p->ai_next) {
+			if (p->ai_family == AF_INET) {
+				*loop4 = ((struct sockaddr_in *) p->ai_addr)->sin_addr.s_addr == htonl(INADDR_LOOPBACK);
+				break;
+			}
+			if (p->ai_family == AF_INET6) break;
+		}
+	}
+	if (rv == 0) freeaddrinfo(res);
+	return ms;
+}
+
+static void
+redial_unresolvable_case(long idx, vf_rng *r, uint64_t key)
+{
+	static const char *schemes[] = { "tcp", "ws", "tcp4" };
+	int         sc    = (int) vf_below(r, 3);
+	int         rc    = (int) vf_below(r, 4);
+	const char *pname = redial_protos[vf_below(r, NRPROTO)];
+	bool        viasock = vf_chance(r, 1, 3);
+	int         rmin = reconn[rc][0], rmax = reconn[rc][1];
+	int         bound = reconn_bound(rmin, rmax);
+	char        url[128];
+	bool        ok1, ok2;
+	snprintf(url, sizeof(url), "%s://" NOHOST ":%d%s", schemes[sc], 1 + (int) vf_below(r, 60000), sc == 1 ? "/x" : "");
+	vf_pt_off();
+	vf_case_begin(idx, "redial unresolvable url=%s proto=%s reconn=%d/%d opts=%s key=%llx", url, pname, rmin, rmax, viasock ? "socket" : "dialer", (unsigned long long) key);
+	int ms1 = resolve_ms(NOHOST, &ok1, NULL);
+	tsock *ts = sock_open(pname, key, 0, 0, 0);
+	tep   *de = add_dialer_ex(ts, sc == 1 ? VF_T_WS : VF_T_TCP, url, rmin, rmax, viasock, true);
+	if (de == NULL || atomic_load(&de->open) != 1) vf_harness_fail("dialer start (%s)", url);
+	long     base = ep_failures(true, de->d, de->l), cur = base;
+	uint64_t t0 = vf_now_ns(), end = t0 + 6000ULL * 1000000ULL;
+	hb_reset();
+	while (vf_now_ns() < end) {
+		cur = ep_failures(true, de->d, de->l);
+		if (cur < 0 || cur - base >= 3) break;
+		vf_usleep(1000);
+	}
+	int took = (int) ((vf_now_ns() - t0) / 1000000ULL);
+	int ms2  = resolve_ms(NOHOST, &ok2, NULL);
+	if (ok1 || ok2 || ms1 > 50 || ms2 > 50 || base < 0 || cur < 0) {
+		vf_stat("unresolvable_not_judged", 1);
+	} else {
+		vf_stat("unresolvable_cases", 1);
+		vf_stat("unresolvable_failed_dials_seen", cur - base);
+		vf_stat_max("unresolvable_three_dials_max_ms", took);
+		vf_class("redial/%s/unresolvable-name/reconn=%d-%d", schemes[sc], rmin, rmax);
+		if (cur - base < 3) {
+			char vk[128];
+			snprintf(vk, sizeof(vk), "C14/redial-none/%s/unresolvable-name", schemes[sc]);
+			vf_violation(vk, "%s %s reconnect min/max %d/%d ms: a background dialer whose host name does not resolve made only %ld more failed dials within 6000 ms (three of them take about %d ms; this machine's resolver answered in %d / %d ms); the dialer is open",
+			    url, pname, rmin, rmax, cur - base, 3 * (bound + 1), ms1, ms2);
+		}
+	}
+	// and it must be closable while a resolution / back-off is pending
+	vf_usleep((int) vf_below(r, 3000));
+	if (vf_chance(r, 1, 2)) ep_close(de);
+	close_all_and_check("redial", pname);
+}
+
+// A connect that hangs: a udp dialer whose peer (a bound datagram socket that
+// never answers) lets every connection request time out after the dialer's
+// NNG_OPT_UDP_CONN_EXPIRE (30-80 ms here).  Each failed dial completes with
+// NNG_ETIMEDOUT; the dialer must keep trying.  Observed through the dialer's
+// own failure counters: four more failed dials within a deadline >= 10x what
+// they nominally take.  The pipe of the dial that timed out is still being
+// torn down (delayed at the reaper's race point in two cases of three) while
+// the next dial sets up its pipe for the same peer address.
+static void
+redial_udp_timeout_case(long idx, vf_rng *r, uint64_t key)
+{
+	static const char *ipr[] = { "pair0", "pair1", "bus", "pull", "sub", "req", "push", "pub" };
+	const char        *pname = ipr[vf_below(r, 8)];
+	int                rc    = (int) vf_below(r, 4);
+	int                rmin = reconn[rc][0], rmax = reconn[rc][1];
+	int                bound  = reconn_bound(rmin, rmax);
+	int                expire = (int) vf_range(r, 30, 80);
+	int                want   = (int) vf_range(r, 4, 7);
+	const char        *pt     = "none";
+	char               url[64];
+	struct sockaddr_in sa;
+	socklen_t          sl = sizeof(sa);
+	int                ufd = socket(AF_INET, SOCK_DGRAM | SOCK_CLOEXEC, 0);
+	memset(&sa, 0, sizeof(sa));
+	sa.sin_family      = AF_INET;
+	sa.sin_addr.s_addr = htonl(INADDR_LOOPBACK);
+	if (ufd < 0 || bind(ufd, (struct sockaddr *) &sa, sizeof(sa)) != 0 || getsockname(ufd, (struct sockaddr *) &sa, &sl) != 0) {
+		vf_harness_fail("udp bind: %s", strerror(errno));
+	}
+	snprintf(url, sizeof(url), "udp://127.0.0.1:%u", ntohs(sa.sin_port));
+	vf_pt_off();
+	if (vf_chance(r, 2, 3)) {
+		vf_pt_jitter(key, 8, 100);
+		vf_pt_target(NNI_VP_PIPE_REAP_BEFORE_CLOSE, 500, 2000, 30000);
+		pt = "reap-delayed";
+	}
+	vf_case_begin(idx, "redial udp dial-timeout url=%s proto=%s reconn=%d/%d conn-expire=%d dials=%d perturb=%s key=%llx", url, pname, rmin, rmax, expire, want, pt, (unsigned long long) key);
+	tsock *ts = sock_open(pname, key, 0, 0, 0);
+	tep   *de = add_dialer_ex(ts, T_UDP, url, rmin, rmax, vf_chance(r, 1, 3), false);
+	if (de == NULL) vf_harness_fail("dialer create (%s)", url);
+	if (nng_dialer_set_ms(de->d, NNG_OPT_UDP_CONN_EXPIRE, expire) != 0 ||
+	    nng_dialer_set_ms(de->d, NNG_OPT_UDP_CONN_RETRY, 10) != 0 || nng_dialer_start(de->d, NNG_FLAG_NONBLOCK) != 0) {
+		vf_harness_fail("udp dialer options / start");
+	}
+	long     base = ep_failures(true, de->d, de->l), cur = base;
+	int      nominal = want * (expire + bound);
+	int      limit   = 10 * nominal + 5000;
+	uint64_t t0 = vf_now_ns(), end = t0 + (uint64_t) limit * 1000000ULL;
+	while (vf_now_ns() < end) {
+		cur = ep_failures(true, de->d, de->l);
+		if (cur < 0 || cur - base >= want) break;
+		vf_usleep(1000);
+	}
+	int took = (int) ((vf_now_ns() - t0) / 1000000ULL);
+	if (base < 0 || cur < 0) {
+		vf_stat("dial_timeout_not_judged", 1);
+	} else {
+		vf_stat("dial_timeout_cases", 1);
+		vf_stat("dial_timeout_failed_dials_seen", cur - base);
+		vf_stat_max("dial_timeout_dials_max_ms", took);
+		vf_class("redial/udp/dial-timeout/reconn=%d-%d/%s", rmin, rmax, pt);
+		if (cur - base < want) {
+			vf_violation("C14/redial-none/udp/dial-timeout", "%s %s reconnect min/max %d/%d ms, connection set-up expiring after %d ms: the background dialer made only %ld more failed dials within %d ms (%d of them take about %d ms); the dialer is open",
+			    url, pname, rmin, rmax, expire, cur - base, limit, want, nominal);
+		}
+	}
+	vf_usleep((int) vf_below(r, 3000));
+	if (vf_chance(r, 1, 2)) ep_close(de);
+	// let the endpoint's timer look at its pipes once more
+	if (vf_chance(r, 1, 2)) vf_msleep(expire + 5);
+	close_all_and_check("redial", pname);
+	close(ufd);
+}
+
 static void
 redial_case(long idx)
 {
@@ -2001,8 +2639,14 @@ redial_case(long idx)
 	vf_rng_seed(&r, vf_seed, (uint64_t) idx);
 	key = vf_rand(&r);
 	case_reset();
-	uint32_t w = vf_below(&r, 10);
-	if (w < 3) {
+	uint32_t w = vf_below(&r, 13);
+	if (w == 12) {
+		redial_udp_timeout_case(idx, &r, key);
+	} else if (w == 11) {
+		redial_backoff_stats_case(idx, &r, key, vf_chance(&r, 1, 2) ? VF_T_WS : VF_T_INPROC);
+	} else if (w == 10) {
+		redial_unresolvable_case(idx, &r, key);
+	} else if (w < 3) {
 		redial_raw_case(idx, &r, key, VF_T_TCP);
 	} else if (w < 7) {
 		redial_raw_case(idx, &r, key, VF_T_IPC);
@@ -2047,15 +2691,24 @@ do_failure(tsock *ts, tep *le, int kind, vf_rng *r, char *label, size_t lsz)
 {
 	const vf_proto *pr  = ts->proto;
 	bool            tcp = le->tran == VF_T_TCP;
+	bool            ipcframe = le->tran == VF_T_IPC;
 	uint8_t         hello[8], rx[8];
 	int             k = -1;
+	if (le->tran == VF_T_SOCKFD && kind == F_CONNECT_RST) {
+		// a descriptor that is none: the listener must get over it
+		int rv = nng_listener_set_int(le->l, NNG_OPT_SOCKET_FD, 0x3ffffff0);
+		snprintf(label, lsz, "bad-fd");
+		vf_stat("failures_injected", 1);
+		vf_class("listen/%s/%s/%s", tn(le->tran), label, rv == 0 ? "taken" : "refused");
+		return;
+	}
 	if (!tcp && kind == F_CONNECT_RST) kind = F_CONNECT_CLOSE;
 	if (!tcp && kind == F_GOOD_RST) kind = F_GOOD_CLOSE;
 	snprintf(label, lsz, "%s", failnames[kind]);
 	if (kind == F_BURST) {
 		int fds[12], n = (int) vf_range(r, 3, 12);
 		for (int i = 0; i < n; i++) {
-			fds[i] = raw_connect_url(le->url, 2000);
+			fds[i] = client_connect(le, 2000);
 			if (fds[i] >= 0 && vf_chance(r, 1, 2)) {
 				vf_sp_hello(hello, pr->peer);
 				vf_fd_write_all(fds[i], hello, vf_below(r, 9), 1000);
@@ -2077,7 +2730,7 @@ do_failure(tsock *ts, tep *le, int kind, vf_rng *r, char *label, size_t lsz)
 		vf_quiesce(1, 1000);
 	}
 	int logpos = log_len();
-	int fd     = raw_connect_url(le->url, 2000);
+	int fd     = client_connect(le, 2000);
 	if (fd < 0) {
 		vf_stat("failure_connect_failed", 1);
 		return;
@@ -2125,7 +2778,7 @@ do_failure(tsock *ts, tep *le, int kind, vf_rng *r, char *label, size_t lsz)
 		uint8_t hdr[9] = { 1, 0, 0, 0, 0, 0, 0, 0, 40 };
 		vf_sp_handshake(fd, pr->peer, NULL, 3000);
 		k = (int) vf_range(r, 1, 8);
-		vf_fd_write_all(fd, tcp ? hdr + 1 : hdr, (size_t) k, 1000);
+		vf_fd_write_all(fd, ipcframe ? hdr : hdr + 1, (size_t) k, 1000);
 		fd_rst_close(fd, false);
 		break;
 	}
@@ -2134,7 +2787,7 @@ do_failure(tsock *ts, tep *le, int kind, vf_rng *r, char *label, size_t lsz)
 		atomic_store(kind == F_REJECT_PRE ? &ts->force_pre : &ts->force_post, 1);
 		vf_sp_handshake(fd, pr->peer, NULL, 3000);
 		if (kind == F_REJECT_PRE) {
-			reject_probe(ts, fd, !tcp, logpos, "listen", tn(le->tran), 2000);
+			reject_probe(ts, fd, ipcframe, logpos, "listen", tn(le->tran), 2000);
 		} else if (!vf_fd_wait_eof(fd, 2000)) {
 			vf_stat("eof_wait_timeout", 1);
 		}
@@ -2155,6 +2808,89 @@ do_failure(tsock *ts, tep *le, int kind, vf_rng *r, char *label, size_t lsz)
 	}
 	if (k >= 0) snprintf(label, lsz, "%s@%d", failnames[kind], k);
 	vf_stat("failures_injected", 1);
+	vf_class("listen/%s/%s", tn(le->tran), label);
+}
+
+// The accept itself fails: with the process out of file descriptors accept4()
+// returns EMFILE, the listener's accept aio completes with an error, the
+// listener cools down on its timer and must arm the accept again.  Three
+// connections are made while no descriptor is free and held 230 ms (longer
+// than the 100 ms cool-down, so that the timer path re-arms into the error at
+// least once); accept_errors_forced is read back from the listener's own
+// error counters, so the floor proves that the path ran.
+static void
+do_accept_emfile(tep *le, vf_rng *r, char *label, size_t lsz)
+{
+	int           fds[3], nfd = 0;
+	struct rlimit old, low;
+	union {
+		struct sockaddr    sa;
+		struct sockaddr_in in;
+		struct sockaddr_un un;
+	} a;
+	socklen_t alen;
+	bool      tcp = le->tran == VF_T_TCP;
+	snprintf(label, lsz, "accept-emfile");
+	memset(&a, 0, sizeof(a));
+	if (tcp) {
+		a.in.sin_family      = AF_INET;
+		a.in.sin_addr.s_addr = htonl(INADDR_LOOPBACK);
+		a.in.sin_port        = htons((uint16_t) atoi(strrchr(le->url, ':') + 1));
+		alen                 = sizeof(a.in);
+	} else {
+		a.un.sun_family = AF_UNIX;
+		snprintf(a.un.sun_path, sizeof(a.un.sun_path), "%s", le->url + 6);
+		alen = sizeof(a.un);
+	}
+	// earlier connections should be gone (their descriptors closed) first
+	vf_quiesce(2, 1000);
+	for (int i = 0; i < 3; i++) {
+		int fd = socket(tcp ? AF_INET : AF_UNIX, SOCK_STREAM | SOCK_CLOEXEC, 0);
+		if (fd >= 0) fds[nfd++] = fd;
+	}
+	if (nfd == 0 || getrlimit(RLIMIT_NOFILE, &old) != 0) {
+		for (int i = 0; i < nfd; i++) close(fds[i]);
+		return;
+	}
+	long before = ep_failures(false, le->d, le->l);
+	int  lowest = fcntl(fds[0], F_DUPFD_CLOEXEC, 0); // the lowest free descriptor
+	if (lowest < 0) {
+		for (int i = 0; i < nfd; i++) close(fds[i]);
+		return;
+	}
+	close(lowest);
+	low          = old;
+	low.rlim_cur = (rlim_t) lowest;
+	if (setrlimit(RLIMIT_NOFILE, &low) != 0) {
+		for (int i = 0; i < nfd; i++) close(fds[i]);
+		vf_stat("emfile_setrlimit_failed", 1);
+		return;
+	}
+	// ---- no descriptor can be allocated in this process from here ...
+	int nconn = 0;
+	for (int i = 0; i < nfd; i++) {
+		if (connect(fds[i], &a.sa, alen) == 0) nconn++;
+	}
+	struct timespec ts = { 0, 230 * 1000000L };
+	while (nanosleep(&ts, &ts) != 0 && errno == EINTR) {
+	}
+	setrlimit(RLIMIT_NOFILE, &old);
+	// ---- ... to here
+	long after = ep_failures(false, le->d, le->l);
+	if (before >= 0 && after > before) {
+		vf_stat("accept_errors_forced", after - before);
+		vf_stat("accept_emfile_stages_effective", 1);
+	}
+	vf_stat("accept_emfile_stages", 1);
+	vf_stat("failures_injected", nconn);
+	// the held connections are accepted now (or not); they leave in
+	// different ways
+	for (int i = 0; i < nfd; i++) {
+		uint8_t hello[8];
+		vf_sp_hello(hello, 0x10);
+		if (vf_chance(r, 1, 2)) vf_fd_write_all(fds[i], hello, vf_below(r, 9), 500);
+		fd_rst_close(fds[i], tcp && vf_chance(r, 1, 3));
+	}
 	vf_class("listen/%s/%s", tn(le->tran), label);
 }
 
@@ -2249,6 +2985,70 @@ recv_probe(tsock *ts, uint64_t seqno, int timeout_ms)
 	}
 }
 
+// the probe connection to a socket:// listener, kept across the two attempts
+static struct {
+	int      fd;
+	uint32_t lid;
+	int      nrx;
+	uint8_t  rx[8];
+} sfd_probe = { -1, 0, 0, { 0 } };
+static bool sfd_probe_taken; // the listener took the probe's descriptor (this round)
+
+static void
+sfd_probe_forget(void)
+{
+	if (sfd_probe.fd >= 0) close(sfd_probe.fd);
+	sfd_probe.fd = -1;
+}
+
+// returns the descriptor once the listener's hello has arrived in full
+static int
+sfd_probe_conn(tep *le, const vf_proto *pr, int timeout_ms)
+{
+	if (sfd_probe.fd >= 0 && sfd_probe.lid != le->id) sfd_probe_forget();
+	uint64_t end = vf_now_ns() + (uint64_t) timeout_ms * 1000000ULL;
+	if (sfd_probe.fd < 0) {
+		uint8_t hello[8];
+		// (a listener that is cooling down after a failed accept while
+		// others hand over descriptors may have its 16 places taken)
+		while ((sfd_probe.fd = sfd_connect(le)) < 0) {
+			if (vf_now_ns() > end) return -1;
+			vf_msleep(10);
+		}
+		sfd_probe_taken = true;
+		sfd_probe.lid = le->id;
+		sfd_probe.nrx = 0;
+		vf_sp_hello(hello, pr->peer);
+		if (vf_fd_write_all(sfd_probe.fd, hello, 8, 2000) != 0) {
+			sfd_probe_forget();
+			return -1;
+		}
+	} else {
+		vf_stat("sockfd_probe_same_connection_again", 1);
+	}
+	while (sfd_probe.nrx < 8 && vf_now_ns() < end) {
+		struct pollfd p = { sfd_probe.fd, POLLIN, 0 };
+		if (poll(&p, 1, 50) <= 0) continue;
+		ssize_t n = read(sfd_probe.fd, sfd_probe.rx + sfd_probe.nrx, (size_t) (8 - sfd_probe.nrx));
+		if (n > 0) {
+			sfd_probe.nrx += (int) n;
+		} else if (n == 0 || (errno != EAGAIN && errno != EINTR)) {
+			// the listener hung up on a well-behaved client
+			vf_stat("sockfd_probe_hung_up_on", 1);
+			sfd_probe_forget();
+			return -1;
+		}
+	}
+	if (sfd_probe.nrx < 8) return -1; // kept: more patience in the second attempt
+	const uint8_t *rx = sfd_probe.rx;
+	if (rx[0] != 0 || rx[1] != 'S' || rx[2] != 'P' || rx[3] != 0 || rx[6] != 0 || rx[7] != 0 ||
+	    (uint16_t) ((rx[4] << 8) | rx[5]) != pr->self) {
+		sfd_probe_forget();
+		return -1;
+	}
+	return sfd_probe.fd;
+}
+
 static bool
 probe_once(tsock *ts, tep *le, bool use_nng, uint64_t seqno, uint64_t key)
 {
@@ -2274,12 +3074,20 @@ probe_once(tsock *ts, tep *le, bool use_nng, uint64_t seqno, uint64_t key)
 		sock_close(c);
 		return ok;
 	}
-	int fd = raw_connect_url(le->url, 2000);
-	if (fd < 0) return false;
+	// socket://: a connection that the listener took and never serves is
+	// the failure looked for, so the second attempt stays with the first
+	// attempt's connection (see sfd_probe) instead of making a new one
+	int      fd;
 	uint16_t got = 0;
-	if (vf_sp_handshake(fd, pr->peer, &got, 5000) != 0 || got != pr->self) {
-		close(fd);
-		return false;
+	if (le->tran == VF_T_SOCKFD) {
+		if ((fd = sfd_probe_conn(le, pr, 5000)) < 0) return false;
+	} else {
+		fd = raw_connect_url(le->url, 2000);
+		if (fd < 0) return false;
+		if (vf_sp_handshake(fd, pr->peer, &got, 5000) != 0 || got != pr->self) {
+			close(fd);
+			return false;
+		}
 	}
 	bool ipc = le->tran == VF_T_IPC;
 	bool ok  = false;
@@ -2314,6 +3122,10 @@ probe_once(tsock *ts, tep *le, bool use_nng, uint64_t seqno, uint64_t key)
 		}
 		if (ok) vf_stat("probe_round_trips", 1);
 	}
+	if (le->tran == VF_T_SOCKFD) {
+		if (!ok) return false; // kept for the second attempt
+		sfd_probe.fd = -1;
+	}
 	fd_rst_close(fd, false);
 	return ok;
 }
@@ -2336,23 +3148,61 @@ listen_case(long idx)
 		vf_pt_jitter(key, 15, 150);
 		pt = "jitter";
 	}
-	vf_case_begin(idx, "listen proto=%s listeners=%d rounds=%d perturb=%s key=%llx", pname, nl, rounds, pt, (unsigned long long) key);
-	tsock *ts = sock_open(pname, key, 0, 0, 0);
+	bool late = vf_chance(&r, 1, 3);
+	vf_case_begin(idx, "listen proto=%s listeners=%d rounds=%d perturb=%s%s key=%llx", pname, nl, rounds, pt, late ? " late-registration" : "", (unsigned long long) key);
+	tsock *ts = sock_open_ex(pname, key, 0, 0, 0, late);
 	tep   *les[3];
 	for (int i = 0; i < nl; i++) {
-		if ((les[i] = add_listener(ts, vf_chance(&r, 1, 4) ? VF_T_TCP : VF_T_IPC)) == NULL) vf_harness_fail("listener");
+		uint32_t w = vf_below(&r, 8);
+		if ((les[i] = add_listener(ts, w < 2 ? VF_T_TCP : w < 4 ? VF_T_SOCKFD : VF_T_IPC)) == NULL) vf_harness_fail("listener");
 	}
 	// sometimes one more listener on a transport without an SP hello
 	tep *xl = NULL;
 	if (vf_chance(&r, 1, 2)) {
 		if ((xl = add_listener(ts, vf_chance(&r, 1, 2) ? T_UDP : VF_T_WS)) == NULL) vf_harness_fail("listener");
 	}
+	// late registration: well-behaved clients are connected before the
+	// application installs its callbacks; they leave in the middle of the
+	// case (or with the socket) and nothing may be reported for them
+	int nearly = 0, efd[3], early_round = -1;
+	if (late) {
+		int want = (int) vf_range(&r, 1, 3);
+		for (int i = 0; i < want; i++) {
+			int fd = client_connect(les[vf_below(&r, (uint32_t) nl)], 2000);
+			if (fd < 0) continue;
+			if (vf_sp_handshake(fd, ts->proto->peer, NULL, 3000) != 0) {
+				close(fd);
+				continue;
+			}
+			efd[nearly++] = fd;
+		}
+		sock_register_late(ts, nearly, 2000);
+		early_round = (int) vf_below(&r, (uint32_t) rounds + 1); // == rounds: at socket close
+		vf_class("listen/late-registration/%s/%d-pipes-before", pname, nearly);
+	}
+	// one case in four: in one round the accept itself fails (EMFILE)
+	int emfile_round = vf_chance(&r, 1, 4) ? (int) vf_below(&r, (uint32_t) rounds) : -1;
 	uint64_t seqno = 1;
 	for (int round = 0; round < rounds; round++) {
 		tep *le = les[vf_below(&r, (uint32_t) nl)];
 		char lab[64] = "none";
+		if (round == early_round) {
+			for (int i = 0; i < nearly; i++) fd_rst_close(efd[i], les[0]->tran == VF_T_TCP && vf_chance(&r, 1, 2));
+			nearly = 0;
+			vf_stat("early_clients_left_mid_case", 1);
+		}
 		int  nf = (int) vf_range(&r, 1, 5);
 		bool onx = xl != NULL && vf_chance(&r, 1, 2);
+		if (round == emfile_round) {
+			// (a socket:// listener never calls accept())
+			for (int i = 0; i < nl && le->tran == VF_T_SOCKFD; i++) le = les[i];
+			if (le->tran == VF_T_SOCKFD) {
+				emfile_round = -1;
+			} else {
+				onx = false;
+				nf  = (int) vf_below(&r, 3);
+			}
+		}
 		for (int f = 0; f < nf; f++) {
 			if (onx) {
 				do_failure_x(xl, &r, lab, sizeof(lab));
@@ -2361,6 +3211,10 @@ listen_case(long idx)
 			}
 		}
 		if (onx) le = xl;
+		if (round == emfile_round) {
+			do_accept_emfile(le, &r, lab, sizeof(lab));
+			nf += 3;
+		}
 		pthread_t   ft;
 		failthr_arg fa;
 		bool        conc = vf_chance(&r, 1, 3);
@@ -2372,13 +3226,18 @@ listen_case(long idx)
 			atomic_store(&fa.stop, 0);
 			if (pthread_create(&ft, NULL, fail_thread, &fa) != 0) vf_harness_fail("pthread_create");
 		}
-		bool use_nng = onx || vf_chance(&r, 1, 3);
+		bool use_nng = onx || (vf_chance(&r, 1, 3) && le->tran != VF_T_SOCKFD);
+		sfd_probe_taken = false;
 		bool ok      = probe_once(ts, le, use_nng, seqno++, key ^ (uint64_t) round);
 		if (!ok) {
 			// bounded progress: one more complete attempt before reporting
+			// (socket://: there is no connecting that could fail for reasons
+			// of this machine, the descriptor was handed over; the second
+			// attempt is five more seconds for the same connection)
 			vf_stat("probe_rechecks", 1);
 			ok = probe_once(ts, le, use_nng, seqno++, key ^ (uint64_t) (round + 100));
 		}
+		sfd_probe_forget();
 		if (conc) {
 			atomic_store(&fa.stop, 1);
 			pthread_join(ft, NULL);
@@ -2386,6 +3245,7 @@ listen_case(long idx)
 		if (ok) {
 			vf_stat("probes_ok", 1);
 			if (onx) vf_stat(xl->tran == T_UDP ? "probes_ok_udp" : "probes_ok_ws", 1);
+			if (le->tran == VF_T_SOCKFD) vf_stat("probes_ok_sockfd", 1);
 		} else {
 			char vk[200];
 			char kind[64];
@@ -2393,8 +3253,11 @@ listen_case(long idx)
 			char *at = strchr(kind, '@');
 			if (at) *at = 0;
 			snprintf(vk, sizeof(vk), "C14/listener-dead/%s/%s/after-%s", tn(le->tran), pname, kind);
-			vf_violation(vk, "%s %s listener %u: after %d failing connections (last: %s)%s a well-behaved %s client could not connect and deliver a message (two attempts of 5 s each)",
-			    tn(le->tran), pname, le->id, nf, lab, conc ? " and with more failing concurrently" : "", use_nng ? "nng" : "raw");
+			vf_violation(vk, "%s %s listener %u: after %d failing connections (last: %s)%s a well-behaved %s client %s",
+			    tn(le->tran), pname, le->id, nf, lab, conc ? " and with more failing concurrently" : "", use_nng ? "nng" : "raw",
+			    le->tran != VF_T_SOCKFD ? "could not connect and deliver a message (two attempts of 5 s each)"
+			    : sfd_probe_taken       ? "whose descriptor the listener had taken (NNG_OPT_SOCKET_FD returned 0) was not served within 10 s: no hello, or no message delivered"
+			                            : "could not hand its descriptor to the listener for 10 s: NNG_OPT_SOCKET_FD kept failing");
 			break;
 		}
 		vf_class("listen-probe/%s/%s/%s/after-%s", tn(le->tran), pname, use_nng ? "nng-client" : "raw-client", lab);
@@ -2406,7 +3269,7 @@ listen_case(long idx)
 		vf_sp_hello(hello, ts->proto->peer);
 		nh = (int) vf_range(&r, 2, 8);
 		for (int i = 0; i < nh; i++) {
-			hfd[i] = raw_connect_url(les[vf_below(&r, (uint32_t) nl)]->url, 2000);
+			hfd[i] = client_connect(les[vf_below(&r, (uint32_t) nl)], 2000);
 			if (hfd[i] >= 0) {
 				int k = (int) vf_below(&r, 8);
 				if (k) vf_fd_write_all(hfd[i], hello, (size_t) k, 1000);
@@ -2423,6 +3286,7 @@ listen_case(long idx)
 	for (int i = 0; i < nh; i++) {
 		if (hfd[i] >= 0) close(hfd[i]);
 	}
+	for (int i = 0; i < nearly; i++) close(efd[i]);
 	vf_stat("cases", 1);
 	if ((idx & 15) == 0) {
 		vf_sample("{\"mode\":\"listen\",\"proto\":\"%s\",\"listeners\":%d,\"rounds\":%d,\"events_logged\":%d}", pname, nl, rounds, evn);
@@ -2444,6 +3308,11 @@ main(int argc, char **argv)
 	}
 	const char *mode = vf_mode[0] ? vf_mode : "events";
 	long        ncases_run = 0;
+	if (!strcmp(mode, "redial")) {
+		bool ok = false, l4 = false;
+		int  ms = resolve_ms("localhost", &ok, &l4);
+		localhost_is_loopback4 = ok && l4 && ms < 200;
+	}
 	for (long idx = 0; idx < vf_cases; idx++) {
 		if (!vf_want_case(idx)) continue;
 		vf_watchdog(45);
